@@ -82,13 +82,18 @@ def joinLines : List Str → Str
   | [x] => x
   | x :: y :: r => x ++ s "\n" ++ joinLines (y :: r)
 
+/-- the value part of an option's spec: one `:name:action` per mandatory value; an optional value (`min_values == 0`)
+is written `::name:action` (after the `fix:` for finding F24 - it used to be left out, and with it the possible values) -/
+def vcOf (o : ZArg) : Str :=
+  let vn := o.valueName.getD (s " ")
+  let vc1 := match valueCompletion o with | some v => s ":" ++ vn ++ s ":" ++ v | none => s ":" ++ vn ++ s ": "
+  if o.minVals == 0 then s ":" ++ vc1 else (List.replicate o.minVals vc1).flatten
+
 /-- `write_opts_of` -/
 def writeOptsOf (args : List ZArg) : Str :=
   joinLines ((args.filter fun a => a.takes && !a.positional).flatMap fun o =>
     let help := escapeHelp (o.help.getD [])
-    let vn := o.valueName.getD (s " ")
-    let vc1 := match valueCompletion o with | some v => s ":" ++ vn ++ s ":" ++ v | none => s ":" ++ vn ++ s ": "
-    let vc := (List.replicate o.minVals vc1).flatten
+    let vc := vcOf o
     (o.shortsAll.map fun sh => s "'" ++ conflictsText o ++ starText o ++ s "-" ++ sh ++ s "+[" ++ help ++ s "]" ++ vc ++ s "' \\") ++
     (o.longsAll.map fun l => s "'" ++ conflictsText o ++ starText o ++ s "--" ++ l ++ s "=[" ++ help ++ s "]" ++ vc ++ s "' \\"))
 
